@@ -358,7 +358,7 @@ ATHERIS_TARGETS: list[dict] = [
     {"kind": "pickle", "restricted": True},
     {"kind": "base64", "inner": {"kind": "pickle", "restricted": True}, "alphabet": "urlsafe", "checksum": "key", "separator": b"|", "limit": 4096},
 ]
-ATHERIS_RUNS = 40000
+ATHERIS_RUNS = 30000
 ATHERIS_MAX_LEN = 4096
 _fuzz_cache: dict[str, dict] = {}
 
@@ -490,8 +490,8 @@ CHECK = Check(
         "non-trivial = non-empty input on which at least one parse error was reported; distinct = sha1 of the canonical case JSON"
     ),
     layers=[
-        Layer("oneshot", st_oneshot_case, run_oneshot, {"quick": 700, "thorough": 5000}, hang_is_violation=True, case_timeout_s=30),
-        Layer("stream", st_stream_case, run_stream, {"quick": 1100, "thorough": 8000}, hang_is_violation=True, case_timeout_s=30),
+        Layer("oneshot", st_oneshot_case, run_oneshot, {"quick": 700, "thorough": 4000}, hang_is_violation=True, case_timeout_s=30),
+        Layer("stream", st_stream_case, run_stream, {"quick": 1100, "thorough": 5000}, hang_is_violation=True, case_timeout_s=30),
         # one case = one bounded libFuzzer run in a subprocess (same oracle in-target); a fuzzer finding is re-run through the
         # direct layers and reported with a direct replay file.  Skipped (and recorded as a class) if atheris is not importable.
         Layer("atheris", st_atheris_case, run_atheris, {"quick": 0, "thorough": 2}, case_timeout_s=1700),
